@@ -96,6 +96,13 @@ func (e *Engine) verifyFunc(key string) (res *FuncResult) {
 		x.inputs = append(x.inputs, toComps(et, v)...)
 		freeVals[fv.Name()] = tv{x.fnTerm(st, v), et}
 	}
+	for oldName, newName := range e.localAliases(fn) {
+		if v, ok := freeVals[newName]; ok {
+			if _, has := freeVals[oldName]; !has {
+				freeVals[oldName] = v
+			}
+		}
+	}
 	env := x.contractEnv(st, c, sig, all)
 	for k, v := range freeVals {
 		env.vars[k] = v
